@@ -293,7 +293,9 @@ func (s *sided) fieldCoverage(sides string) []sideIssue {
 				any = true
 			}
 		}
-		if !any {
+		// the struct counts as expanded field by field when the generator enumerated it through derive.Fields (the
+		// per-field emitter's front end), or when at least one of its field names reached the residual
+		if !any && d.Fn != "derive.Fields" {
 			continue
 		}
 		n := 0
